@@ -376,12 +376,15 @@ Proof. intros c [H1 H2]. split; intro E; inversion E; subst; contradiction. Qed.
 
 Lemma route_is_response : forall q, is_response (route_outcome q).
 Proof.
-  intros q. unfold route_outcome. destruct (q_body q) as [from until name|nd spans|rs|s fb|p|bad| ].
+  intros q. unfold route_outcome. destruct (q_body q) as [from until name|nd spans|rs|s fb tail|p|bad| ].
   - apply exact_resp, ingest_is_response.
   - destruct (q_wire_ok q); [apply exact_resp, zipkin_is_response|split; discriminate].
   - destruct (q_wire_ok q); [apply exact_resp, otlp_is_response|].
     apply exact_resp. vm_compute. split; discriminate.
-  - apply exact_resp. unfold snappy_outcome. apply proto_logs_is_response.
+  - apply exact_resp. unfold snappy_outcome.
+    destruct (if unsnappy_decodes s then q_wire_ok q else fb); [|apply proto_logs_is_response].
+    destruct (String.eqb tail ""); [apply proto_logs_is_response|].
+    apply cls_of_parse_resp. discriminate.
   - destruct (precision_ok p); [|apply exact_resp; split; discriminate].
     destruct (q_wire_ok q); [apply exact_resp, proto_logs_is_response|split; discriminate].
   - destruct bad; [apply exact_resp; vm_compute; split; discriminate|].
@@ -541,7 +544,7 @@ Lemma route_char : forall q, q_body q <> BBytes ->
   (body_malformed q = false -> route_outcome q = Exact C2xx).
 Proof.
   intros q Hb. unfold body_malformed, route_outcome.
-  destruct (q_body q) as [from until name|nd spans|rs|s fb|p|bad| ]; [| | | | | |contradiction].
+  destruct (q_body q) as [from until name|nd spans|rs|s fb tail|p|bad| ]; [| | | | | |contradiction].
   - destruct (ingest_char (q_ct q) from until name (q_wire_ok q)) as [[H1 H2]|[H1 H2]]; rewrite H2.
     + split; [discriminate|intros _; now rewrite H1].
     + split; [intros _; exact H1|discriminate].
@@ -553,8 +556,9 @@ Proof.
     rewrite <- (otlp_events_bad rs). unfold otlp_outcome. split; intros H.
     + cbn [expect_is_error]. apply spans_bad_is_error; [reflexivity|exact span_st0_ok|apply otlp_events_proper|exact H].
     + rewrite (spans_good_is_done _ span_st0 world0 eq_refl span_st0_ok H). reflexivity.
-  - unfold snappy_outcome. destruct (if unsnappy_decodes s then q_wire_ok q else fb);
-      split; try discriminate; intros _; reflexivity.
+  - unfold snappy_outcome. destruct (if unsnappy_decodes s then q_wire_ok q else fb); cbn [negb orb].
+    + destruct (String.eqb tail ""); cbn [negb]; split; try discriminate; intros _; reflexivity.
+    + split; try discriminate; intros _; reflexivity.
   - destruct (precision_ok p), (q_wire_ok q); split; try discriminate; intros _; reflexivity.
   - destruct bad, (q_wire_ok q); split; try discriminate; intros _; reflexivity.
 Qed.
@@ -578,3 +582,33 @@ Proof.
      [split; [exact R1|exact R2]
      |split; [intros _; cbn [expect_is_error]; exact (content_encoding_status_is_error _ _ _ Hce)|discriminate]]).
 Qed.
+
+(* ------------------------------------------------------------------------------------------ *)
+(** * Client text inside an untyped error cannot silence ErrorHandler *)
+
+Lemma diverge_sound : forall p h, diverge p h = true -> forall s, prefix p (h ++ s) = false.
+Proof.
+  induction p as [|a p IH]; intros h H s; [discriminate|].
+  destruct h as [|b h]; [discriminate|]. cbn [diverge] in H. cbn [append prefix].
+  destruct (Ascii.eqb a b) eqn:E.
+  - apply Ascii.eqb_eq in E. subst b. destruct (ascii_dec a a) as [_|n]; [|contradiction].
+    apply IH. exact H.
+  - apply Ascii.eqb_neq in E. destruct (ascii_dec a b) as [e|_]; [contradiction|reflexivity].
+Qed.
+
+Lemma sites_safe_sound : forall sites, sites_safe error_handler_model sites = true ->
+  forall st, In st sites -> forall rest,
+    status_of_error (e_plain (site_head st ++ rest)) = Some 500%Z.
+Proof.
+  intros sites H st Hin rest. unfold sites_safe in H. apply andb_true_iff in H as [H _].
+  cbn [error_handler_model prefix_literals forallb] in H. rewrite andb_true_r in H.
+  rewrite forallb_forall in H. specialize (H st Hin). unfold site_cannot_start_with in H.
+  rewrite (status_of_plain_error (e_plain (site_head st ++ rest)) eq_refl). cbn [e_plain e_msg].
+  now rewrite (diverge_sound _ _ H).
+Qed.
+
+(* the client-text errors of the modelled routes, for EVERY client string *)
+Lemma client_text_errors_answered : forall s,
+  status_of_error (e_from s) = Some 500%Z /\ status_of_error (e_until s) = Some 500%Z /\
+  status_of_error (e_labels s) = Some 500%Z.
+Proof. intros s. split; [|split]; reflexivity. Qed.
